@@ -16,6 +16,15 @@ CHECKS = {
         design="§8 C05",
         technique="Lean 4 proof (invariant over the merge loop) + differential correspondence model vs real const fn",
         note=TB + " Modelled, not verified: konst::cmp_str/eq_str as byte-wise order/equality; const-eval panic = compile error."),
+    "C06": dict(
+        text="Machine-checked proof that the modelled entry-point generator emits an entry point of kind k iff k is defined (4 defaults; migrate/reply iff a handler "
+             "exists) and was not named in an override attribute, that overriding one kind leaves the others alone, no duplicates, and that each emitted "
+             "entry point decodes the message of its own kind and forwards exactly its context values. The kind parser, default list, names and context "
+             "tables are regenerated from the source on every run and the table obligations re-proved; the model is compared with the real expansion on all "
+             "1024 configurations (exhaustive).",
+        design="§8 C06",
+        technique="Lean 4 proof over tables regenerated from source + exhaustive L1 differential (real macro expansion vs model)",
+        note=TB + " Modelled, not verified: the body of msg.dispatch (C02/C03), cosmwasm_std::entry_point."),
 }
 
 ALL = ["C%02d" % i for i in range(1, 21)]
@@ -32,10 +41,12 @@ def main():
             "enable": "SYLVIA_VERIF_HARNESS=/verif/harness/hook/hook_main.rs cargo test --offline -p sylvia-derive --features verif-hook --lib -- verif_hook::verif_entry --exact",
             "baseline_off_cmd": "cd /repo && cargo test --workspace --no-fail-fast --offline",
             "source_commits": ["f0dc71d"],
+            "fix_commits": ["a51e7a3"],
             "add_only": True,
         },
         "engines": [
             {"name": "lean", "path": "lean/", "serves_properties": sorted(CHECKS), "kind_free_text": "Lean 4 model + theorems + svmodel line-protocol driver"},
+            {"name": "hook", "path": "harness/hook/", "serves_properties": ["C06"], "kind_free_text": "in-process macro expansion + source translator, compiled into sylvia-derive tests via the verif-hook feature (L1)"},
             {"name": "rt", "path": "harness/rt/", "serves_properties": ["C05"], "kind_free_text": "Rust harness calling the real runtime library (L3)"},
         ],
         "checks": [],
